@@ -19,14 +19,15 @@ WithOk(ch) == [i \in DOMAIN ch |-> <<ch[i][1], ch[i][2], TRUE>>]
 SwitchNext ==
   LET n == Len(dep.vecs[1].elems) IN
   \/ \E e \in 1..n, x \in {On, Off} : S' = OpAssign(dep, S, 1, e, x) /\ op' = [o |-> "assign", v |-> 1, e |-> e, x |-> x]
+  \/ \E e \in 1..n, x \in {On, Off} : S' = OpAssignFail(dep, S, 1, e, x) /\ op' = [o |-> "assignfail", v |-> 1, e |-> e, x |-> x]
   \/ \E ch \in Children(n, IF n <= 3 THEN 3 ELSE 2) : S' = OpNewVector(dep, S, "A", "SW", WithOk(ch)) /\ op' = [o |-> "new", ch |-> ch]
   \/ \E names \in SUBSET Range(Names(n)) : S' = OpSetSelected(dep, S, 1, names) /\ op' = [o |-> "sel", names |-> names]
 SwitchSpec == SwitchInit /\ [][SwitchNext /\ UNCHANGED dep]_mcvars
 P_RulePreserved == [][RulePreserved(dep, S, S')]_mcvars
 P_PubRuleOK     == [][PubRuleOK(dep, S, S')]_mcvars
-P_AssignOnOK    == [][op'.o = "assign" => AssignOnOK(dep, S, S', op'.v, op'.e, op'.x)]_mcvars
+P_AssignOnOK    == [][op'.o \in {"assign", "assignfail"} => AssignOnOK(dep, S, S', op'.v, op'.e, op'.x)]_mcvars
 P_SelectOnOK    == [][op'.o = "sel" => SelectOnOK(dep, S', 1, op'.names)]_mcvars
-P_NoRaise       == [][~S'.raised]_mcvars
+P_NoRaise       == [][op'.o # "assignfail" => ~S'.raised]_mcvars
 View == <<dep, S.val>>
 
 -----------------------------------------------------------------------------
